@@ -209,4 +209,113 @@ theorem nextFrom_ctx (todo : List Staged) (c c' : Cond) (offers : List Offer)
     intro o ho
     exact hall o ((mem_sortOffers offs o).mp ho)
 
+/-! ### the delay a re-offered task carries -/
+
+/-- the delay `get_next_tasks` attaches to the offer of a re-staged (retried) entry -/
+def retryDelayOf (r : RetryState) : Val :=
+  match r.delay with
+  | .val v => if v.truthy then v else .int 0
+  | .expr _ => .str "<expr>"
+  | .none_ => .int 0
+
+theorem withRetryDelay_delay (sx : Staged) (o : Offer) (r : RetryState) (h : sx.retry = some r) :
+    (withRetryDelay sx o).delay = some (retryDelayOf r) := by
+  unfold withRetryDelay
+  rw [h]
+  dsimp only
+  unfold retryDelayOf
+  cases hd : r.delay <;> rfl
+
+theorem nextTaskFor_delay (sx : Staged) (c c' : Cond) (o : Offer) (f : Bool)
+    (h : nextTaskFor E sx c = (.ok (some o, f), c')) (r : RetryState) (hr : sx.retry = some r) :
+    o.delay = some (retryDelayOf r) := by
+  unfold nextTaskFor at h
+  rcases tryCatch_ok h with hb | ⟨e, c1, _, hh⟩
+  · obtain ⟨o1, c1, _, h1⟩ := M.bind_ok hb
+    obtain ⟨o2, c2, _, h2⟩ := M.bind_ok h1
+    have ho : o = withRetryDelay sx o2 := by
+      dsimp only at h2
+      split at h2
+      · obtain ⟨e, _⟩ := pure_ok h2
+        cases e
+        rfl
+      · split at h2
+        · obtain ⟨e, _⟩ := pure_ok h2
+          cases e
+          rfl
+        · obtain ⟨e, _⟩ := pure_ok h2
+          cases e
+    rw [ho]
+    exact withRetryDelay_delay sx o2 r hr
+  · obtain ⟨u, c2, _, h2⟩ := M.bind_ok hh
+    obtain ⟨e, _⟩ := pure_ok h2
+    cases e
+
+/-- the offer came from the entry `sx` of the list the query iterates over, with its retry delay -/
+def DelaySpec (todo : List Staged) (o : Offer) : Prop :=
+  ∃ sx ∈ todo, sx.id = o.id ∧ sx.route = o.route ∧ ∀ r, sx.retry = some r → o.delay = some (retryDelayOf r)
+
+theorem nextLoop_delay (all : List Staged) : ∀ (todo : List Staged) (acc : List Offer × Bool) (c : Cond)
+    (r : List Offer × Bool) (c' : Cond),
+    M.foldM' todo acc (fun acc sx => do
+      let (o, f) ← nextTaskFor E sx
+      pure (match o with | some o => acc.1 ++ [o] | none => acc.1, acc.2 || f)) c = (.ok r, c') →
+    (∀ sx ∈ todo, sx ∈ all) → (∀ o ∈ acc.1, DelaySpec all o) → ∀ o ∈ r.1, DelaySpec all o := by
+  intro todo
+  induction todo with
+  | nil =>
+    intro acc c r c' h _ hacc
+    have : (pure acc : M (List Offer × Bool)) c = (.ok r, c') := h
+    obtain ⟨e, _⟩ := pure_ok this
+    subst e
+    exact hacc
+  | cons sx rest ih =>
+    intro acc c r c' h hsub hacc
+    have h' : (M.bind' (do
+        let (o, f) ← nextTaskFor E sx
+        pure (match o with | some o => acc.1 ++ [o] | none => acc.1, acc.2 || f))
+      (fun b' => M.foldM' rest b' (fun acc sx => do
+        let (o, f) ← nextTaskFor E sx
+        pure (match o with | some o => acc.1 ++ [o] | none => acc.1, acc.2 || f)))) c = (.ok r, c') := h
+    obtain ⟨acc', c1, hstep, hrest⟩ := M.bind_ok (m := (do
+        let (o, f) ← nextTaskFor E sx
+        pure (match o with | some o => acc.1 ++ [o] | none => acc.1, acc.2 || f) : M (List Offer × Bool))) h'
+    obtain ⟨res, c2, hn, hp⟩ := M.bind_ok hstep
+    obtain ⟨oo, f⟩ := res
+    dsimp only at hp
+    obtain ⟨e, e2⟩ := pure_ok hp
+    subst e e2
+    apply ih _ c2 r c' hrest (fun x hx => hsub x (List.mem_cons_of_mem _ hx))
+    intro o ho
+    cases oo with
+    | none => exact hacc o ho
+    | some o1 =>
+      dsimp only at ho
+      rcases List.mem_append.mp ho with ho | ho
+      · exact hacc o ho
+      · simp only [List.mem_singleton] at ho
+        subst ho
+        have hk := nextTaskFor_ctx E sx c c2 o f hn
+        exact ⟨sx, hsub sx List.mem_cons_self, hk.2.1.symm, hk.2.2.symm,
+          fun r hr => nextTaskFor_delay E sx c c2 o f hn r hr⟩
+
+theorem nextFrom_delay (todo : List Staged) (c c' : Cond) (offers : List Offer)
+    (h : nextFrom E todo c = (.ok offers, c')) : ∀ o ∈ offers, DelaySpec todo o := by
+  unfold nextFrom at h
+  obtain ⟨r, c1, hloop, h1⟩ := M.bind_ok h
+  obtain ⟨offs, failed⟩ := r
+  dsimp only at h1
+  have hall := nextLoop_delay E todo todo ([], false) c (offs, failed) c1 hloop (fun _ hx => hx)
+    (fun o ho => by cases ho)
+  split at h1
+  · obtain ⟨u, c2, _, h2⟩ := M.bind_ok h1
+    obtain ⟨e, _⟩ := pure_ok h2
+    subst e
+    intro o ho
+    cases ho
+  · obtain ⟨e, _⟩ := pure_ok h1
+    subst e
+    intro o ho
+    exact hall o ((mem_sortOffers offs o).mp ho)
+
 end Orq
